@@ -767,6 +767,17 @@ func (fr *Frame) execInvoke(st *State, c *ssa.CallCommon, recv Val, args []Val, 
 	g := fr.g
 	fr.safety(st, "nil.invoke", "(not ((_ is iface_nil) "+recv.S+"))", "method call on nil interface ("+c.Method.Name()+")")
 	it := c.Value.Type()
+	// dynamic type fixed by a precondition "requires dyn(p) == T": call the implementation directly
+	for _, mv := range g.params {
+		if mv.Term == recv.S {
+			if kt, ok := g.knownDyn[mv.Name]; ok && fr.top {
+				if m := g.P.methodOf(kt, c.Method.Name(), c.Method.Pkg()); m != nil {
+					rv := Val{T: kt, S: g.define("rcv", g.S.sortOf(kt), g.S.unbox(kt, recv.S))}
+					return fr.callStatic(st, m, append([]Val{rv}, args...), nil, resT)
+				}
+			}
+		}
+	}
 	if con := g.ifaceContract(c); con != nil {
 		return fr.applyIfaceContract(st, con, c, recv, args, resT)
 	}
